@@ -140,11 +140,6 @@ theorem slotPairs_field (oA oG oD oS : Option Pair) (nm : Pair) :
     oA.toList ++ ([nm] ++ (oG.toList ++ (oD.toList ++ oS.toList))) = slotPairs [oA, some nm, oG, oD, oS] := by
   simp [slotPairs]
 
-theorem clean_opt {o : Option Pair} (h : ∀ x ∈ o, CleanP x) : CleanL o.toList := by
-  cases o with
-  | none => trivial
-  | some x => exact ⟨h x rfl, trivial⟩
-
 theorem hd_rHead (τ : Trivia) (sD : Bool) (p : Nat) (al : Option (Name × Pos)) (n : Name) (args : List Arg)
     (dirs : List Directive) (hal : ∀ a ∈ al, validName a.1.toList) (hnm : validName n.toList) :
     Hd nameStart (rHead τ sD p al n args dirs) := by
@@ -229,5 +224,373 @@ theorem fieldSomeT (τ : Trivia) (hτ : ∀ q, Ws (τ q)) (al : Option (Name × 
       (by intro x hx; cases hx; exact hokS.rule) (by rw [hH]; omega) hsel
     rw [← slotPairs_field] at this
     simpa [At, hH] using this
+
+
+/-! ### inline fragments -/
+
+theorem look_NamedType' : gList.look R.NamedType = some (.normal, .call R.Name) := rfl
+
+theorem p_inline_nodup : (P_InlineFragment.map itemRule).Nodup := by decide
+
+theorem hd_rCond (τ : Trivia) (sep : Bool) (p : Nat) (c : Option (Name × Pos)) :
+    rCond τ sep p c = [] ∨ Hd (· = 'o') (rCond τ sep p c) := by
+  cases c with
+  | none => exact Or.inl rfl
+  | some t => exact Or.inr (Hd.append (hd_tk (P := (· = 'o')) (hd_cons ['n'] rfl)) _)
+
+/-- `TypeCondition`: `on gap Type gap` -/
+theorem condT (τ : Trivia) (hτ : ∀ q, Ws (τ q)) (t : Name) (tp : Pos) (hv : validName t.toList) {p : Nat}
+    {bad : Char → Prop} (h : HasAt inp p (rCond τ false p (some (t, tp))))
+    (hn : Nxt inp bad false (p + (rCond τ false p (some (t, tp))).length)) :
+    ∃ e, RunsK (B (rCond τ false p (some (t, tp))).length + 8) (.call R.TypeCondition) (At inp p)
+        (At inp (p + (rCond τ false p (some (t, tp))).length))
+        [.mk R.TypeCondition p e [.mk R.KEYWORD_on p (p + 2) [],
+          .mk R.NamedType (p + (tk τ true p kwOn).length) (p + (tk τ true p kwOn).length + t.toList.length)
+            [.mk R.Name (p + (tk τ true p kwOn).length) (p + (tk τ true p kwOn).length + t.toList.length) []]]] ∧
+      HasAt inp (p + (tk τ true p kwOn).length) t.toList := by
+  simp only [rCond] at h hn ⊢
+  generalize h1 : tk τ true p kwOn = t1 at *
+  generalize h2 : tk τ false (p + t1.length) t.toList = t2 at *
+  have hlen : p + (t1 ++ t2).length = p + t1.length + t2.length := by simp only [List.length_append]; omega
+  rw [hlen] at hn ⊢
+  have g1 : HasAt inp p t1 := h.left
+  have g2 : HasAt inp (p + t1.length) t2 := h.right
+  have r1 := kwT hτ look_KEYWORD_on (h1 ▸ g1) (bad := fun _ => False) (by
+    rw [h1]; exact Nxt.of_hd_sep g2 (h2 ▸ hd_tk (hd_of_validName hv)) (fun d hd => ⟨nameStart_not_trivia hd, id⟩))
+  have r2 := nameT hτ hv (h2 ▸ g2) (by rw [h2]; exact hn)
+  rw [h1] at r1
+  rw [h2] at r2
+  have r2' := runsKE_rule look_NamedType' (by decide) (by decide) r2
+  obtain ⟨e, rT⟩ := runsK_rule look_TypeCondition (by decide) (by decide) (runsK_seq r1.toK r2'.toK)
+  exact ⟨e, RunsK.cast (rT.mono (by barith)) rfl rfl (by simp [At]), (h2 ▸ g2 : HasAt inp _ (tk τ false _ _)).left⟩
+
+/-- `TypeCondition?` in front of something that begins with `@` or `{` -/
+theorem optCondT (τ : Trivia) (hτ : ∀ q, Ws (τ q)) (c : Option (Name × Pos)) (hc : ∀ t ∈ c, validName t.1.toList)
+    {p : Nat} (h : HasAt inp p (rCond τ false p c))
+    (hn : Nxt inp (fun d => nameStart d) false (p + (rCond τ false p c).length)) :
+    ∃ o : Option Pair, RunsK (B (rCond τ false p c).length + 10) (.opt (.call R.TypeCondition)) (At inp p)
+        (At inp (p + (rCond τ false p c).length)) o.toList ∧ (∀ x ∈ o, x.rule = R.TypeCondition ∧ CleanP x) ∧
+      ((c = none ∧ o = none) ∨ ∃ t tp e, c = some (t, tp) ∧ HasAt inp (p + (tk τ true p kwOn).length) t.toList ∧
+        o = some (.mk R.TypeCondition p e [.mk R.KEYWORD_on p (p + 2) [],
+          .mk R.NamedType (p + (tk τ true p kwOn).length) (p + (tk τ true p kwOn).length + t.toList.length)
+            [.mk R.Name (p + (tk τ true p kwOn).length) (p + (tk τ true p kwOn).length + t.toList.length) []]])) := by
+  cases c with
+  | none =>
+    have hn' : Nxt inp (fun d => nameStart d) false p := by simpa [rCond] using hn
+    have hf := fails_rule look_TypeCondition (by decide) (by decide)
+      (fails_seq_1 (kw_fails_head (la := .none) look_KEYWORD_on
+        (headNot_mono (fun d hd => by subst hd; decide) hn'.ok)))
+    refine ⟨none, ?_, by simp, Or.inl ⟨rfl, rfl⟩⟩
+    simp only [rCond, List.length_nil, Nat.add_zero, Option.toList_none]
+    exact (runsK_opt_none hf hn'.tok).mono (by barith)
+  | some tt =>
+    obtain ⟨t, tp⟩ := tt
+    have hv : validName t.toList := hc (t, tp) rfl
+    obtain ⟨e, rT, hat⟩ := condT τ hτ t tp hv h hn
+    refine ⟨some (.mk R.TypeCondition p e [.mk R.KEYWORD_on p (p + 2) [],
+        .mk R.NamedType (p + (tk τ true p kwOn).length) (p + (tk τ true p kwOn).length + t.toList.length)
+          [.mk R.Name (p + (tk τ true p kwOn).length) (p + (tk τ true p kwOn).length + t.toList.length) []]]), ?_, ?_,
+      Or.inr ⟨t, tp, e, rfl, hat, rfl⟩⟩
+    · exact (runsK_opt_some rT).mono (by omega)
+    · intro x hx
+      cases hx
+      exact ⟨rfl, cleanP_of (by decide) (by decide) ⟨cleanP_of (by decide) (by decide) trivial,
+        cleanP_of (by decide) (by decide) ⟨cleanP_of (by decide) (by decide) trivial, trivial⟩, trivial⟩⟩
+
+theorem typeConditionIdent_pair (inp : List Char) (p e q : Nat) (t : List Char) (h : HasAt inp q t) :
+    typeConditionIdent (Ctx.spec inp) (.mk R.TypeCondition p e [.mk R.KEYWORD_on p (p + 2) [],
+      .mk R.NamedType q (q + t.length) [.mk R.Name q (q + t.length) []]]) = .ok (String.ofList t, posAt inp q) := by
+  have hs := h.slice
+  simp [typeConditionIdent, matchParts, P_TypeCondition, Pair.children, Pair.rule, get2, ident, asString_spec',
+    toPos_spec', Pair.start, Pair.stop, hs, Except.map, bind, Except.bind]
+
+theorem inlineT (τ : Trivia) (hτ : ∀ q, Ws (τ q)) (cond : Option (Name × Pos)) (dirs : List Directive)
+    (ss : List Selection) (pos : Pos) (hc : ∀ t ∈ cond, validName t.1.toList) (hdirs : WFDirs dirs)
+    (hss : SelSetOk τ inp ss) : SelOk τ inp (.inline cond dirs ss pos) := by
+  intro sep p h hn
+  have hwp : wpSel τ inp sep p (.inline cond dirs ss pos) =
+      .inline (wpCond τ inp (p + (tk τ false p dots).length) cond)
+        (wpDirs τ inp false (p + (tk τ false p dots).length + (rCond τ false (p + (tk τ false p dots).length) cond).length) dirs)
+        (wpSels τ inp (p + (tk τ false p dots).length + (rCond τ false (p + (tk τ false p dots).length) cond).length +
+          (rDirs τ false (p + (tk τ false p dots).length + (rCond τ false (p + (tk τ false p dots).length) cond).length) dirs).length +
+          (tk τ false (p + (tk τ false p dots).length + (rCond τ false (p + (tk τ false p dots).length) cond).length +
+          (rDirs τ false (p + (tk τ false p dots).length + (rCond τ false (p + (tk τ false p dots).length) cond).length) dirs).length) ['{']).length) ss)
+        (posAt inp p) := by
+    simp only [wpSel]
+  have htxt : rSel τ sep p (.inline cond dirs ss pos) = tk τ false p dots ++
+      (rCond τ false (p + (tk τ false p dots).length) cond ++
+        (rDirs τ false (p + (tk τ false p dots).length + (rCond τ false (p + (tk τ false p dots).length) cond).length) dirs ++
+          rSelSet τ sep (p + (tk τ false p dots).length + (rCond τ false (p + (tk τ false p dots).length) cond).length +
+            (rDirs τ false (p + (tk τ false p dots).length + (rCond τ false (p + (tk τ false p dots).length) cond).length) dirs).length) ss)) := by
+    simp only [rSel, rSelSet]
+  rw [hwp]
+  rw [htxt] at h hn ⊢
+  clear hwp htxt
+  generalize h0 : tk τ false p dots = t0 at *
+  generalize hC : rCond τ false (p + t0.length) cond = tC at *
+  generalize hD : rDirs τ false (p + t0.length + tC.length) dirs = tD at *
+  generalize hS : rSelSet τ sep (p + t0.length + tC.length + tD.length) ss = tS at *
+  have hlen : p + (t0 ++ (tC ++ (tD ++ tS))).length = p + t0.length + tC.length + tD.length + tS.length := by
+    simp only [List.length_append]; omega
+  rw [hlen] at hn ⊢
+  have g0 : HasAt inp p t0 := h.left
+  have g1 : HasAt inp (p + t0.length) tC := h.right.left
+  have g2 : HasAt inp (p + t0.length + tC.length) tD := h.right.right.left
+  have g3 : HasAt inp (p + t0.length + tC.length + tD.length) tS := h.right.right.right
+  have hd0 : Hd (· = '.') t0 := h0 ▸ hd_tk (hd_cons _ rfl)
+  have hdS : Hd (· = '{') tS := hS ▸ hd_rSelSet τ sep _ ss
+  have hl0 : 3 ≤ t0.length := by rw [← h0]; simp [tk]
+  have hlS := hdS.length_pos
+  -- what follows the type condition / the directives
+  have n3 : Nxt inp (fun c => c = '(' ∨ c = '@' ∨ nameStart c) false (p + t0.length + tC.length + tD.length) :=
+    Nxt.of_hd g3 hdS (by rintro c rfl; decide)
+  have n2 : Nxt inp (fun d => nameStart d) false (p + t0.length + tC.length) :=
+    Nxt.rest g2 n3 (hD ▸ hd_rDirs τ false _ dirs) (P := (· = '@')) (by rintro c rfl; decide)
+      (fun c hc => Or.inr (Or.inr hc)) (fun _ _ => rfl)
+  have hrest : Hd (fun c => c = 'o' ∨ c = '@' ∨ c = '{') (tC ++ (tD ++ tS)) := by
+    have a : tD ++ tS = [] ∨ Hd (fun c => c = 'o' ∨ c = '@' ∨ c = '{') (tD ++ tS) :=
+      hd_or_nil_append (hd_or_nil_mono (hD ▸ hd_rDirs τ false _ dirs) (fun c h => Or.inr (Or.inl h)))
+        (Or.inr (hdS.mono (fun c h => Or.inr (Or.inr h))))
+    have b := hd_or_nil_append (hd_or_nil_mono (hC ▸ hd_rCond τ false _ cond) (fun c h => Or.inl h)) a
+    rcases b with b | b
+    · exact absurd (List.append_eq_nil_iff.mp (List.append_eq_nil_iff.mp b).2).2 hdS.ne_nil
+    · exact b
+  have g1' : HasAt inp (p + t0.length) (tC ++ (tD ++ tS)) := h.right
+  have hTok1 : Tok (At inp (p + t0.length)) := tok_of_hd g1' hrest (by rintro c (rfl | rfl | rfl) <;> decide)
+  -- the field alternative fails
+  have f1 := field_fails (headNot_of_hd g0 hd0 (by rintro c rfl; decide)) (tok_of_hd g0 hd0 (by rintro c rfl; decide))
+  -- `...`
+  have r0 := strT hτ dots (h0 ▸ g0) (by rw [h0]; exact hTok1)
+  rw [h0] at r0
+  -- the type condition
+  obtain ⟨oC, rC, hokC, hbC⟩ := optCondT τ hτ cond hc (hC ▸ g1) (by rw [hC]; exact n2)
+  rw [hC] at rC
+  -- the spread alternative fails: `FragmentName` fails after `...`
+  have fFN : Fails gList 40 true (.call R.FragmentName) .nonAtomic (At inp (p + t0.length)) := by
+    refine (fails_rule look_FragmentName (by decide) (by decide) ?_).mono (by omega : 36 + 2 ≤ 40)
+    cases cond with
+    | none =>
+      have htC : tC = [] := by rw [← hC]; rfl
+      subst htC
+      have hh : Hd (fun c => c = '@' ∨ c = '{') (tD ++ tS) := by
+        have := hd_or_nil_append (hd_or_nil_mono (hD ▸ hd_rDirs τ false _ dirs) (fun c h => Or.inl h))
+          (Or.inr (hdS.mono (fun c h => Or.inr h)))
+        rcases this with b | b
+        · exact absurd (List.append_eq_nil_iff.mp b).2 hdS.ne_nil
+        · exact b
+      have hat : HasAt inp (p + t0.length) (tD ++ tS) := by simpa using g1'
+      have rNot := runsK_not (kw_fails_head (la := .neg) look_KEYWORD_on
+        (headNot_of_hd hat hh (by rintro c (rfl | rfl) <;> decide))) hTok1
+      exact (fails_seq_K rNot (name_fails_at (headNot_of_hd hat hh (by rintro c (rfl | rfl) <;> decide)))).mono (by simp)
+    | some tt =>
+      obtain ⟨t, tp⟩ := tt
+      simp only [rCond] at hC
+      have gk : HasAt inp (p + t0.length) (tk τ true (p + t0.length) kwOn) := (hC ▸ g1).left
+      have gg : HasAt inp (p + t0.length + (tk τ true (p + t0.length) kwOn).length)
+          (tk τ false (p + t0.length + (tk τ true (p + t0.length) kwOn).length) t.toList) := (hC ▸ g1).right
+      obtain ⟨gw, _, gglue⟩ := tk_gap hτ gk (bad := fun _ => False)
+        (Nxt.of_hd_sep gg (hd_tk (hd_of_validName (hc (t, tp) rfl))) (fun d hd => ⟨nameStart_not_trivia hd, id⟩))
+      obtain ⟨ps, hr⟩ := kw_runsL (la := .neg) look_KEYWORD_on gw gglue
+      exact (fails_seq_1 (fails_not hr)).mono (by omega)
+  have f2 : Fails gList (B t0.length + 50) true (.call R.FragmentSpread) .nonAtomic (At inp p) :=
+    (fails_rule look_FragmentSpread (by decide) (by decide) (fails_seq_K r0 (fails_seq_1 fFN))).mono (by barith)
+  -- directives, selection set
+  obtain ⟨oD, rD, hokD, _, hbD⟩ := optDirsT τ hτ dirs hdirs (bad := fun c => c = '(' ∨ c = '@' ∨ nameStart c)
+    (Or.inl rfl) (Or.inr (Or.inl rfl)) (hD ▸ g2) (by rw [hD]; exact n3)
+  rw [hD] at rD hbD
+  obtain ⟨prS, rSS, hokS, hbS⟩ := hss sep (p + t0.length + tC.length + tD.length) (hS ▸ g3) (by rw [hS]; exact hn.tok)
+  rw [hS] at rSS hbS
+  obtain ⟨e, rI⟩ := runsK_rule look_InlineFragment (by decide) (by decide)
+    (runsK_seq r0 (runsK_seq rC (runsK_seq rD rSS)))
+  obtain ⟨e', rSel⟩ := runsK_rule look_Selection (by decide) (by decide)
+    (runsK_choice_r f1 (runsK_choice_r f2 rI))
+  refine ⟨_, rSel.mono (by barith), ?_, ?_⟩
+  · refine pairOk_mk (by decide) (by decide) ⟨cleanP_of (by decide) (by decide) ?_, trivial⟩
+    simp only [cleanL_append, cleanL_cons, cleanL_nil, and_true, true_and]
+    exact ⟨clean_opt (fun x hx => (hokC x hx).2), clean_opt (fun x hx => (hokD x hx).clean), hokS.clean⟩
+  · intro fuel hf
+    have hf' : t0.length + (tC.length + (tD.length + tS.length)) ≤ fuel := by simpa using hf
+    have hm := matchParts_slots P_InlineFragment [oC, oD, some prS] p_inline_nodup
+      ⟨fun x hx => (hokC x hx).1, fun x hx => (hokD x hx).rule, ⟨_, rfl, hokS.rule⟩, trivial⟩
+    have hch : [] ++ (oC.toList ++ (oD.toList ++ [prS])) = slotPairs [oC, oD, some prS] := by simp [slotPairs]
+    rw [hch]
+    have hfD := hbD fuel (by omega)
+    have hfS := hbS fuel (by omega)
+    unfold selFn
+    rcases hbC with ⟨rfl, rfl⟩ | ⟨t, tp, eC, rfl, hct, rfl⟩
+    · simp [onlyChildOf, onlyChild, Pair.children, OC_Selection, Pair.rule, bind, Except.bind, At, hm, hfD, hfS,
+        toPos_spec', Pair.start, pure, Except.pure, R.Field, R.FragmentSpread, R.InlineFragment, wpCond]
+    · have hti := typeConditionIdent_pair inp (p + t0.length) eC _ t.toList hct
+      simp [onlyChildOf, onlyChild, Pair.children, OC_Selection, Pair.rule, bind, Except.bind, At, hm, hfD, hfS,
+        toPos_spec', Pair.start, pure, Except.pure, R.Field, R.FragmentSpread, R.InlineFragment, wpCond, hti]
+
+
+/-! ### selection sets -/
+
+theorem rSels_eq (τ : Trivia) : ∀ (ss : List Selection) (p : Nat),
+    rSels τ p ss = renderItems (rSel τ) true false p ss := by
+  intro ss
+  induction ss with
+  | nil => intro p; simp only [rSels, renderItems]
+  | cons s r ih =>
+    intro p
+    cases r with
+    | nil => simp only [rSels, renderItems]
+    | cons t r => simp only [rSels, renderItems, ih]
+
+theorem wpSels_eq (τ : Trivia) (inp : List Char) : ∀ (ss : List Selection) (p : Nat),
+    wpSels τ inp p ss = mapItems (rSel τ) true false (wpSel τ inp) p ss := by
+  intro ss
+  induction ss with
+  | nil => intro p; simp only [wpSels, mapItems]
+  | cons s r ih =>
+    intro p
+    cases r with
+    | nil => simp only [wpSels, mapItems]
+    | cons t r => simp only [wpSels, mapItems, ih]
+
+theorem hd_rSel (τ : Trivia) (sep : Bool) (p : Nat) (s : Selection) (hwf : WFSel s) :
+    Hd (fun d => nameStart d ∨ d = '.') (rSel τ sep p s) := by
+  cases s with
+  | field al n np args dirs sel =>
+    cases sel with
+    | none =>
+      obtain ⟨hal, hnm, _, _⟩ := hwf
+      simp only [rSel]
+      exact (hd_rHead τ sep p al n args dirs hal hnm).mono (fun _ h => Or.inl h)
+    | some ss =>
+      obtain ⟨hal, hnm, _, _, _, _⟩ := hwf
+      rw [rSel_field_some]
+      exact ((hd_rHead τ false p al n args dirs hal hnm).mono (fun _ h => Or.inl h)).append _
+  | spread n np dirs pos =>
+    simp only [rSel]
+    exact Hd.append (hd_tk (P := fun d => nameStart d ∨ d = '.') (hd_cons ['.', '.'] (Or.inr rfl))) _
+  | inline cond dirs ss pos =>
+    simp only [rSel]
+    exact Hd.append (hd_tk (P := fun d => nameStart d ∨ d = '.') (hd_cons ['.', '.'] (Or.inr rfl))) _
+
+def SelGood (τ : Trivia) (inp : List Char) : Bool → Nat → Selection → Pair → Prop := fun s q x pr =>
+  PairOk R.Selection q pr ∧
+    ∀ fuel, (rSel τ s q x).length ≤ fuel → selFn (Ctx.spec inp) fuel pr = .ok (wpSel τ inp s q x)
+
+/-- the `SelectionSet` rule over selections that satisfy the round-trip statement -/
+theorem selSetT (τ : Trivia) (hτ : ∀ q, Ws (τ q)) (ss : List Selection) (hne : ss ≠ [])
+    (hall : ∀ s ∈ ss, WFSel s ∧ SelOk τ inp s) : SelSetOk τ inp ss := by
+  intro sep p h ht
+  cases ss with
+  | nil => exact absurd rfl hne
+  | cons a r =>
+    simp only [rSelSet] at h ht ⊢
+    rw [rSels_eq, wpSels_eq] at *
+    generalize hO : tk τ false p ['{'] = tO at *
+    generalize hI : renderItems (rSel τ) true false (p + tO.length) (a :: r) = tI at *
+    generalize hC : tk τ sep (p + tO.length + tI.length) ['}'] = tC at *
+    have hlen : p + (tO ++ (tI ++ tC)).length = p + tO.length + tI.length + tC.length := by
+      simp only [List.length_append]; omega
+    rw [hlen] at ht ⊢
+    have g0 : HasAt inp p tO := h.left
+    have g1 : HasAt inp (p + tO.length) tI := h.right.left
+    have g2 : HasAt inp (p + tO.length + tI.length) tC := h.right.right
+    have hdC : Hd (· = '}') tC := hC ▸ hd_tk (hd_cons _ rfl)
+    have hlO : 1 ≤ tO.length := by rw [← hO]; simp [tk]
+    have hlC : 1 ≤ tC.length := hdC.length_pos
+    have hnE : Nxt inp selBad false (p + tO.length + tI.length) := Nxt.of_hd g2 hdC (by rintro c rfl; decide)
+    have hfail : Fails gList (40 + 100) true (.call R.Selection) .nonAtomic (At inp (p + tO.length + tI.length)) :=
+      (selection_fails (headNot_of_hd g2 hdC (by rintro c rfl; decide)) hnE.tok).mono (by omega)
+    obtain ⟨pss, hmany, hgood⟩ := items_many1K (rSel τ) true false (.call R.Selection) selBad 40 (SelGood τ inp) r a
+      (p + tO.length)
+      (fun x hx s q hat hnx => by
+        obtain ⟨pr, hr, hok, hb⟩ := (hall x hx).2 s q hat hnx
+        exact ⟨pr, hr, hok, hb⟩)
+      (fun x hx s q => (hd_rSel τ s q x (hall x hx).1).mono (by
+        rintro c (hc | rfl)
+        · have := nameStart_not_punct hc
+          refine ⟨nameStart_not_trivia hc, ?_, fun h => by cases h⟩
+          rintro (rfl | rfl | rfl | rfl) <;> simp_all
+        · decide))
+      (hI ▸ g1) (by rw [hI]; exact hnE) (by rw [hI]; exact hfail)
+    rw [hI] at hmany
+    have hTokI : Tok (At inp (p + tO.length)) := by
+      obtain ⟨s', tail, htl⟩ := renderItems_cons (rSel τ) true false (p + tO.length) a r
+      refine tok_of_hd g1 (hI ▸ htl ▸ (hd_rSel τ s' _ a (hall a (List.mem_cons_self ..)).1).append _) ?_
+      rintro c (hc | rfl)
+      · exact nameStart_not_trivia hc
+      · decide
+    have r0 := strT hτ ['{'] (hO ▸ g0) (by rw [hO]; exact hTokI)
+    have r2 := strT hτ ['}'] (hC ▸ g2) (by rw [hC]; exact ht)
+    rw [hO] at r0
+    rw [hC] at r2
+    obtain ⟨e, rS⟩ := runsK_rule look_SelectionSet (by decide) (by decide)
+      (runsK_seq r0 (runsK_seq (runsK_plus1 hmany) r2))
+    have hclean : CleanL pss := goodItems_clean (rSel τ) true false (SelGood τ inp) (a :: r)
+      (fun x _ s q pr hg => hg.1.clean) _ pss hgood
+    refine ⟨_, rS.mono (by barith), pairOk_mk (by decide) (by decide) (by simpa using hclean), ?_⟩
+    intro fuel hf
+    obtain ⟨f, rfl⟩ : ∃ f, fuel = f + 1 := ⟨fuel - 1, by simp only [List.length_append] at hf; omega⟩
+    have hall' := goodItems_all (rSel τ) true false (SelGood τ inp) R.Selection (a :: r)
+      (fun x _ s q pr hg => hg.1.rule) _ pss hgood
+    simp only [At, List.nil_append, List.append_nil]
+    rw [buildSelectionSet_eq _ _ _ _ _ hall']
+    exact goodItems_mapM (rSel τ) true false (SelGood τ inp) (selFn (Ctx.spec inp) f) (wpSel τ inp) f (a :: r)
+      (fun x _ s q pr hg hl => hg.2 f hl) _ pss (by rw [hI]; simp only [List.length_append] at hf; omega) hgood
+
+/-! ### the induction on the selection tree -/
+
+theorem size_mem_sels {s : Selection} : ∀ {ss : List Selection}, s ∈ ss → s.size ≤ Selection.sizeList ss := by
+  intro ss
+  induction ss with
+  | nil => intro h; cases h
+  | cons w ws ih =>
+    intro h
+    simp only [Selection.sizeList]
+    rcases List.mem_cons.mp h with rfl | h
+    · omega
+    · have := ih h; omega
+
+theorem wfSels_mem {s : Selection} : ∀ {ss : List Selection}, WFSels ss → s ∈ ss → WFSel s := by
+  intro ss
+  induction ss with
+  | nil => intro _ h; cases h
+  | cons w ws ih =>
+    intro hwf h
+    simp only [WFSels] at hwf
+    rcases List.mem_cons.mp h with rfl | h
+    · exact hwf.1
+    · exact ih hwf.2 h
+
+/-- every well-formed selection satisfies the round-trip statement -/
+theorem sel_all (τ : Trivia) (hτ : ∀ q, Ws (τ q)) : ∀ (N : Nat) (s : Selection), s.size ≤ N → WFSel s → SelOk τ inp s := by
+  intro N
+  induction N with
+  | zero =>
+    intro s hs
+    cases s with
+    | field al n np args dirs sel => cases sel <;> simp [Selection.size] at hs
+    | spread => simp [Selection.size] at hs
+    | inline => simp [Selection.size] at hs
+  | succ N ih =>
+    intro s hs hwf
+    cases s with
+    | field al n np args dirs sel =>
+      cases sel with
+      | none => exact fieldNoneT τ hτ al n np args dirs hwf
+      | some ss =>
+        obtain ⟨hal, hnm, hargs, hdirs, hne, hss⟩ := hwf
+        have hsz : Selection.sizeList ss ≤ N := by simp only [Selection.size] at hs; omega
+        exact fieldSomeT τ hτ al n np args dirs ss hal hnm hargs hdirs
+          (selSetT τ hτ ss hne fun x hx =>
+            ⟨wfSels_mem hss hx, ih x (Nat.le_trans (size_mem_sels hx) hsz) (wfSels_mem hss hx)⟩)
+    | spread n np dirs pos => exact spreadT τ hτ n np dirs pos hwf
+    | inline cond dirs ss pos =>
+      obtain ⟨hc, hdirs, hne, hss⟩ := hwf
+      have hsz : Selection.sizeList ss ≤ N := by simp only [Selection.size] at hs; omega
+      exact inlineT τ hτ cond dirs ss pos hc hdirs
+        (selSetT τ hτ ss hne fun x hx =>
+          ⟨wfSels_mem hss hx, ih x (Nat.le_trans (size_mem_sels hx) hsz) (wfSels_mem hss hx)⟩)
+
+/-- … and every non-empty well-formed selection set -/
+theorem selSet_all (τ : Trivia) (hτ : ∀ q, Ws (τ q)) (ss : List Selection) (hne : ss ≠ []) (hwf : WFSels ss) :
+    SelSetOk τ inp ss :=
+  selSetT τ hτ ss hne fun x hx => ⟨wfSels_mem hwf hx, sel_all τ hτ x.size x (Nat.le_refl _) (wfSels_mem hwf hx)⟩
 
 end NitroVerif.DocParse
